@@ -17,7 +17,8 @@ SPEC = {
             "verify/* and special/*: case = (variant, public key, message, signature, context) produced by a generator class (honest; S replaced by S+L, S+2L, L-1, L, 0, 2^k, all-ones, bits in the "
             "top octet; other message / context / sibling variant; bit flips; wrong lengths; contexts of 256..512 octets with the signature a wrapping length octet would produce; every small-order point "
             "in every encoding (canonical, y+p, x=0 with the sign bit, Ed448 last-octet junk) as A and/or R with a signature that satisfies the group equation under permissive decoding; honest Ed448 keys "
-            "with junk in the low 7 bits of octet 56 and a signature computed over the junk encoding; mixed-order keys A+T; R+T; random strings); non-trivial = every class except 'honest'. "
+            "with junk in the low 7 bits of octet 56 and a signature computed over the junk encoding; mixed-order keys A+T; R+T; signatures made by the key holder for an altered encoding of R or A (sign bit, unused bits) with S solved for that transcript; "
+            "the cross-variant matrix (signed in any variant of the curve under context {empty,1,255,drawn}, verified under {same, empty, 255, 256 octets}); random strings); non-trivial = every class except 'honest'. "
             "whitebox/*: case = operands of red512/reduceModOrder/calculateS/isLessThanOrder/fixedMult/doubleMult/pointR1.FromBytes and goldilocks Scalar.{FromBytes,Add,Sub,Mul,Neg,Red}/"
             "ScalarBaseMult/ScalarMult/CombinedMult/FromBytes; non-trivial = at least one operand is limb-structured (vlib.Limbs), near the group order, or of the form q*2^252+small / j*L+-small "
             "(not uniform); for the encoders (pointR1.ToBytes, goldilocks Point.ToBytes) a point whose x or y has two representatives below the element width. "
